@@ -18,8 +18,10 @@ import (
 	"testing"
 	"time"
 
+	"github.com/emersion/go-milter"
 	"github.com/foxcpp/maddy/framework/config"
 	"github.com/foxcpp/maddy/framework/module"
+	_ "github.com/foxcpp/maddy/internal/check/milter"
 	smtpendp "github.com/foxcpp/maddy/internal/endpoint/smtp"
 	"github.com/foxcpp/maddy/internal/zzverif/mx"
 	"verifkit"
@@ -131,6 +133,8 @@ type wireRig struct {
 	endp module.Module
 	lg   *mx.Log
 	kind string // smtp | submission
+
+	milterSrv *milter.Server
 }
 
 func (w *wireRig) take(via string) error {
@@ -146,6 +150,19 @@ func (w *wireRig) arm(a *armed) {
 	w.mu.Lock()
 	w.cur = a
 	w.mu.Unlock()
+}
+
+// scriptMilter answers MAIL FROM of two magic senders with a custom reply code.
+type scriptMilter struct{ milter.NoOpMilter }
+
+func (scriptMilter) MailFrom(from string, m *milter.Modifier) (milter.Response, error) {
+	switch {
+	case strings.Contains(from, "milter-temp"):
+		return milter.NewResponseStr(byte(milter.ActReplyCode), "451 4.7.1 slow down"), nil
+	case strings.Contains(from, "milter-perm"):
+		return milter.NewResponseStr(byte(milter.ActReplyCode), "550 5.7.1 go away"), nil
+	}
+	return milter.RespContinue, nil
 }
 
 type plainAuth struct{ name string }
@@ -182,7 +199,7 @@ func registerCheckFactory() {
 	})
 }
 
-func newRig(kind string, deferReject bool) (*wireRig, error) {
+func newRig(kind string, deferReject, withMilter bool) (*wireRig, error) {
 	rigSeq++
 	w := &wireRig{lg: mx.NewLog(), kind: kind}
 	suffix := fmt.Sprintf("%d_%d", rigSeq, time.Now().UnixNano()%1000000)
@@ -227,7 +244,17 @@ func newRig(kind string, deferReject bool) (*wireRig, error) {
 	checkRegMu.Lock()
 	checkReg[chk.InstName] = chk
 	checkRegMu.Unlock()
-	cfg += "check {\n  c16script " + chk.InstName + "\n}\n"
+	cfg += "check {\n  c16script " + chk.InstName + "\n"
+	if withMilter {
+		ml, err := net.Listen("tcp", "127.0.0.1:0")
+		if err != nil {
+			return nil, err
+		}
+		w.milterSrv = &milter.Server{NewMilter: func() milter.Milter { return scriptMilter{} }}
+		go w.milterSrv.Serve(ml)
+		cfg += "  milter tcp://" + ml.Addr().String() + "\n"
+	}
+	cfg += "}\n"
 	cfg += "destination reject-default.example {\n  reject\n}\n"
 	cfg += "destination reject-perm.example {\n  reject 550\n}\n"
 	cfg += "destination reject-temp.example {\n  reject 450\n}\n"
@@ -255,6 +282,9 @@ func newRig(kind string, deferReject bool) (*wireRig, error) {
 type closer interface{ Close() error }
 
 func (w *wireRig) close() {
+	if w.milterSrv != nil {
+		defer w.milterSrv.Close()
+	}
 	// go-smtp registers the listener inside Serve: make sure it got there.
 	if c, _, err := dial(w.addr); err == nil {
 		c.cmd("QUIT")
@@ -309,7 +339,8 @@ func runWireCase(t *testing.T, r *rep.Reporter, c *rep.Case, ci int) {
 	}
 	deferReject := p.Chance(1, 3)
 	verifkit.ResetSMTPErrorObservations()
-	rig, err := newRig(kind, deferReject)
+	withMilter := p.Chance(1, 4)
+	rig, err := newRig(kind, deferReject, withMilter)
 	if err != nil {
 		t.Fatalf("harness: cannot build the endpoint: %v", err)
 	}
@@ -583,6 +614,10 @@ func runWireCase(t *testing.T, r *rep.Reporter, c *rep.Case, ci int) {
 	fixed("non-ascii-recipient-without-smtputf8", "ю@example.org", "<sender@example.org>", "")
 	fixed("invalid-recipient-domain", "a@xn--", "<sender@example.org>", "")
 	fixed("too-many-received", "rcpt@example.org", "<sender@example.org>", strings.Repeat("Received: from a by b; Mon, 1 Jan 2024 00:00:00 +0000\r\n", 60)+"From: <sender@example.org>\r\n\r\nx")
+	if withMilter {
+		fixed("milter/reply-code-temporary", "rcpt@example.org", "<milter-temp@example.org>", "")
+		fixed("milter/reply-code-permanent", "rcpt@example.org", "<milter-perm@example.org>", "")
+	}
 	if kind == "submission" {
 		fixed("submission/malformed-date", "rcpt@example.org", "<sender@example.org>", "From: <sender@example.org>\r\nDate: not a date\r\n\r\nx")
 		fixed("submission/no-from", "rcpt@example.org", "<sender@example.org>", "Subject: x\r\n\r\nx")
